@@ -79,6 +79,12 @@ CLAIMS = {
         note="Partial: the CFG-preprocessing kernel only (the one place a source scan found in-place writes). Found and fixed (fix: commit): inlineTemplComponentFuncLit wrote into the shared literal CFG; "
              "confirmed natively by an analyzer sharing the pass (TestVerifC17TemplProbe).",
     ),
+    "C09": dict(
+        text="Over all generated interface shapes (embedding, method order, parameters), both event orders and local/upstream first events, a conversion to a different interface is never skipped by the "
+             "(interface, implementation) cache and produces one result trigger per result and one parameter trigger per parameter of every method of its method set; the same pair is analysed once.",
+        note="Partial: the pair cache only. No symbolic scalars in this kernel (shape enumeration); type-checker API stubbed by contract under symx and real in the native replay. "
+             "Found and fixed (fix: commit): the cache key of an interface was derived from its first method's declaring type, so an interface embedding an already-seen one was skipped.",
+    ),
 }
 
 # reasons for every property not (yet) claimed
@@ -87,5 +93,5 @@ NOT_APPLICABLE = {
     "C16": "The quantifier is goroutine interleavings over the whole analysis heap; symx has no thread model and no installed solver-based engine explores Go schedules.",
     "C18": "Everything the property depends on is environment (process cwd captured at init, filepath.Rel, driver cwd); after stubbing those by contract the residual repo code is a one-line wrapper.",
 }
-for _p in ["C07", "C08", "C09", "C14", "C20"]:
+for _p in ["C07", "C08", "C14", "C20"]:
     NOT_APPLICABLE.setdefault(_p, "kernel check not yet registered (in progress; see DESIGN.md section 4)")
